@@ -109,9 +109,10 @@ Definition ex_end (always : bool) (h1 : handler) (now : N) (b : option (outcome 
 Definition exchange (always : bool) (h : handler) (now : N) (p : packet) (src : N) (rp : reply) : list N * handler :=
   let '(b, h1) := ex_begin h now p src in ex_end always h1 now b rp.
 
-(* ttl mode 0: one hour, never reached; mode 1: short, Sleep steps exceed it.  Model time: a
+(* ttl mode 0: one hour, never reached; mode 1: short, Sleep steps exceed it; mode 4: one second, with every exchange observed
+   (the generator keeps every idle period at least 200 ms away from it).  Model time: a
    millisecond clock that stands still except for Sleep. *)
-Definition ttl_of (mode : N) : N := if (mode =? 0) || (mode =? 3) then 3600000 else if mode =? 1 then 40 else 300.
+Definition ttl_of (mode : N) : N := if (mode =? 0) || (mode =? 3) then 3600000 else if mode =? 1 then 40 else if mode =? 4 then 1000 else 300.
 
 (* mode 1: only exchanges immediately after a Sleep are observed (everything else depends on
    the real clock) *)
@@ -145,7 +146,7 @@ Fixpoint run_steps_p (pd : pending) (h : handler) (now : N) (mode : N) (after_sl
              how long the naps really took) *)
           (if existsb (fun s => match s with Exchange _ _ _ _ => true | _ => false end) r then []
            else let o' := removelast o ++ [0] in len o' :: o')
-     else if (mode =? 0) || (mode =? 3) || after_sleep then len o :: o else []) ++ run_steps_p pd h' now mode false r
+     else if (mode =? 0) || (mode =? 3) || (mode =? 4) || after_sleep then len o :: o else []) ++ run_steps_p pd h' now mode false r
   end.
 Definition run_steps := run_steps_p [].
 
@@ -185,7 +186,8 @@ Definition run_case8 (s : list N) : list N :=
 Definition tids (l : list step) : list N :=
   fold_left (fun acc s => match s with Exchange t _ _ _ | Begin t _ _ _ => if existsb (N.eqb t) acc then acc else acc ++ [t] | _ => acc end) l [].
 Definition only (t : N) (l : list step) : list step :=
-  filter (fun s => match s with Exchange t' _ _ _ | Begin t' _ _ _ | End t' => t' =? t | _ => false end) l.
+  (* time passes in a transfer's solo run as it does in the interleaved one: the pauses stay, the other transfers' exchanges go *)
+  filter (fun s => match s with Exchange t' _ _ _ | Begin t' _ _ _ | End t' => t' =? t | Sleep | Nap => true end) l.
 Definition run_case12 (s : list N) : list N :=
   match rd_case8 s with
   | Some (m, mode, l) =>
@@ -330,12 +332,10 @@ Fixpoint check_b2 (body : bytes) (app_opts : list (N * list bytes)) (off : N) (f
   | _, _ => false
   end.
 
-(* a case may hold several transfers in a row (consecutive exchanges with the same tid): each is judged on its own *)
-Fixpoint span_tid (t : N) (l : list ((N * packet * N * reply) * obs)) : list ((N * packet * N * reply) * obs) * list ((N * packet * N * reply) * obs) :=
-  match l with
-  | (((t', _, _, _), _) as x) :: r => if t' =? t then let '(a, b) := span_tid t r in (x :: a, b) else ([], l)
-  | [] => ([], [])
-  end.
+(* a case may hold several transfers (one per tid), in a row or with other keys' exchanges in between: each is judged on
+   its own, in the order of its own exchanges *)
+Definition span_tid (t : N) (l : list ((N * packet * N * reply) * obs)) : list ((N * packet * N * reply) * obs) * list ((N * packet * N * reply) * obs) :=
+  (filter (fun x => let '((t', _, _, _), _) := x in t' =? t) l, filter (fun x => let '((t', _, _, _), _) := x in negb (t' =? t)) l).
 Fixpoint check_transfers (fuel : nat) (l : list ((N * packet * N * reply) * obs)) : bool :=
   match fuel with
   | O => false
